@@ -9,7 +9,12 @@ package main
 
 import (
 	"flag"
+	"time"
+
 	"fmt"
+	"github.com/relex/fluentlib/protocol/forwardprotocol"
+	"github.com/relex/slog-agent/output/datadog"
+	"github.com/relex/slog-agent/output/fluentdforward"
 	"os"
 	"os/exec"
 	"path/filepath"
@@ -33,9 +38,58 @@ import (
 var logs = &hutil.LogCapture{}
 var flagLogs = flag.Bool("logs", false, "echo agent logs")
 
-func matchChunkID(id string) bool { return strings.HasSuffix(id, ".ch") }
+// idKind selects the chunk names and the matcher of the current case: "plain" (harness names NNNN.ch with a suffix matcher),
+// "ff" / "dd" (IDs produced by the real Fluentd / Datadog chunk makers, matched by the output's own MatchChunkID — the
+// pair the agent really runs with: what the matcher accepts decides which files of a queue directory are recovered).
+var idKind = "plain"
 
-func chunkID(i int) string { return fmt.Sprintf("%04d.ch", i+1) }
+var realIDs = map[string][]string{}
+var realMatch = map[string]func(string) bool{}
+
+func initRealIDs() {
+	schema := base.MustNewLogSchema([]string{"host", "log"})
+	ff := &fluentdforward.Config{
+		Serialization: fluentdforward.SerializationConfig{EnvironmentFields: []string{"host"}},
+		MessageMode:   forwardprotocol.ModeCompressedPackedForward,
+		Upstream:      fluentdforward.UpstreamConfig{Address: "localhost:24224", MaxDuration: time.Minute},
+	}
+	if err := ff.VerifyConfig(schema); err != nil {
+		panic(fmt.Sprintf("harness bug: fluentd configuration rejected: %v", err))
+	}
+	dd := &datadog.Config{Upstream: datadog.UpstreamConfig{Address: "https://localhost/api/v2/logs", HTTPTimeout: time.Second}}
+	if err := dd.VerifyConfig(schema); err != nil {
+		panic(fmt.Sprintf("harness bug: datadog configuration rejected: %v", err))
+	}
+	makers := map[string]base.LogChunkMaker{"ff": ff.NewChunkMaker(logger.Root(), "tag"), "dd": dd.NewChunkMaker(logger.Root(), "tag")}
+	realMatch["ff"], realMatch["dd"] = ff.MatchChunkID, dd.MatchChunkID
+	for _, k := range []string{"ff", "dd"} {
+		for i := 0; i < 7; i++ { // 1, 3, 5 name the chunks; 0, 2, 6 name damaged entries placed before / between / behind them
+			makers[k].WriteStream(base.LogStream([]byte("{}")))
+			c := makers[k].FlushBuffer()
+			if c == nil {
+				panic("harness bug: the chunk maker produced no chunk")
+			}
+			realIDs[k] = append(realIDs[k], c.ID)
+		}
+		if !sort.StringsAreSorted(realIDs[k]) {
+			panic(fmt.Sprintf("harness bug: generated chunk IDs are not ascending: %v", realIDs[k]))
+		}
+	}
+}
+
+func matchChunkID(id string) bool {
+	if idKind == "plain" {
+		return strings.HasSuffix(id, ".ch")
+	}
+	return realMatch[idKind](id)
+}
+
+func chunkID(i int) string {
+	if idKind == "plain" {
+		return fmt.Sprintf("%04d.ch", i+1)
+	}
+	return realIDs[idKind][2*i+1]
+}
 
 func chunkData(i, n int) []byte {
 	b := make([]byte, n)
@@ -50,6 +104,7 @@ type caseSpec struct {
 	pos     int  // which of the three chunks is affected
 	atStop  bool // chunks stay in memory and are saved at shutdown (instead of being spilled at Accept)
 	plan    vfs.Plan
+	idKind  string // "" = plain
 	foreign string // extra file placed in the queue directory before the first generation ("", "zero", "badname", "subdir")
 	desc    string
 }
@@ -169,6 +224,12 @@ func gen2(root string) genResult {
 
 // runCase executes both generations and applies the oracle.
 func runCase(c caseSpec) (string, string) {
+	prevKind := idKind
+	idKind = "plain"
+	if c.idKind != "" {
+		idKind = c.idKind
+	}
+	defer func() { idKind = prevKind }()
 	logs.Reset()
 	logs.Echo = *flagLogs
 	root := hutil.ScratchRoot("crashfs")
@@ -195,6 +256,9 @@ func runCase(c caseSpec) (string, string) {
 	if c.foreign != "" {
 		qdir := queueDir(recoverRoot)
 		names := map[string]string{"first": "0000.ch", "middle": "0001a.ch", "last": "9999.ch"}
+		if idKind != "plain" {
+			names = map[string]string{"first": realIDs[idKind][0], "middle": realIDs[idKind][2], "last": realIDs[idKind][6]}
+		}
 		kind, pos := c.foreign, "first"
 		if i := strings.IndexByte(c.foreign, '@'); i > 0 {
 			kind, pos = c.foreign[:i], c.foreign[i+1:]
@@ -310,16 +374,30 @@ func fileOpsBaseline(size, pos int, atStop bool) []vfs.Call {
 }
 
 func enumerate(ctx *seq.Ctx) {
-	sizes := []int{1, 2, 3, 5, 8}
-	modes := []bool{false}
-	if ctx.Thorough() {
-		sizes = []int{1, 2, 3, 4, 5, 8, 13}
-		modes = []bool{false, true}
-	} else {
-		modes = []bool{false, true}
+	for _, kind := range []string{"plain", "ff", "dd"} {
+		enumerateKind(ctx, kind)
 	}
+}
+
+func enumerateKind(ctx *seq.Ctx, kind string) {
+	idKind = kind
+	defer func() { idKind = "plain" }()
+	pfx, ck := "", ""
+	if kind != "plain" {
+		pfx, ck = kind+":", kind
+	}
+	modes := []bool{false, true}
 	for _, atStop := range modes {
 		mode := "spill-at-accept"
+		sizes := []int{1, 2, 3, 5, 8}
+		if ctx.Thorough() {
+			sizes = []int{1, 2, 3, 4, 5, 8, 13}
+			if kind != "plain" {
+				sizes = []int{1, 3, 8} // the real names change which files the matcher accepts, not the byte-level write path
+			}
+		} else if kind != "plain" {
+			sizes = []int{3}
+		}
 		if atStop {
 			mode = "save-at-shutdown"
 			if !ctx.Thorough() {
@@ -329,7 +407,7 @@ func enumerate(ctx *seq.Ctx) {
 		for _, size := range sizes {
 			for pos := 0; pos < 3; pos++ {
 				file := chunkID(pos)
-				base := fmt.Sprintf("%s/size%d/pos%d", mode, size, pos)
+				base := fmt.Sprintf("%s%s/size%d/pos%d", pfx, mode, size, pos)
 				// the write path of this file in a fault-free run (deterministic; computed in every process)
 				ops := fileOpsBaseline(size, pos, atStop)
 				nWrite := 0
@@ -341,15 +419,15 @@ func enumerate(ctx *seq.Ctx) {
 					}
 				}
 				_ = nWrite
-				ctx.Group(mode + "/baseline")
+				ctx.Group(pfx + mode + "/baseline")
 				ctx.Case(base+"/baseline", true, "", func() (string, string) {
 					if writeOps == 0 {
 						return "seam-blind", fmt.Sprintf("%s: the chunk file write is not observable through the syscall seam (ops: %s)", base, vfs.Describe(ops))
 					}
-					return runCase(caseSpec{size: size, pos: pos, atStop: atStop, plan: vfs.Plan{LimitBytes: -1}, desc: base + "/baseline"})
+					return runCase(caseSpec{idKind: ck, size: size, pos: pos, atStop: atStop, plan: vfs.Plan{LimitBytes: -1}, desc: base + "/baseline"})
 				})
 				// (a) space / size limit reached after k bytes
-				ctx.Group(mode + "/limit")
+				ctx.Group(pfx + mode + "/limit")
 				for k := 0; k < size; k++ {
 					for _, errno := range []unix.Errno{unix.ENOSPC, unix.EFBIG, unix.EIO} {
 						if k > 0 && errno != unix.ENOSPC {
@@ -357,33 +435,33 @@ func enumerate(ctx *seq.Ctx) {
 						}
 						desc := fmt.Sprintf("%s/limit%d/%s", base, k, unix.ErrnoName(errno))
 						ctx.Case(desc, true, "", func() (string, string) {
-							return runCase(caseSpec{size: size, pos: pos, atStop: atStop, desc: desc,
+							return runCase(caseSpec{idKind: ck, size: size, pos: pos, atStop: atStop, desc: desc,
 								plan: vfs.Plan{File: file, LimitBytes: k, LimitErrno: errno}})
 						})
 					}
 				}
 				// (b) error at open / close / rename / fsync
-				ctx.Group(mode + "/failop")
+				ctx.Group(pfx + mode + "/failop")
 				for _, op := range []string{"openat", "close", "renameat", "fsync"} {
 					desc := fmt.Sprintf("%s/fail-%s", base, op)
 					ctx.Case(desc, true, "", func() (string, string) {
-						return runCase(caseSpec{size: size, pos: pos, atStop: atStop, desc: desc,
+						return runCase(caseSpec{idKind: ck, size: size, pos: pos, atStop: atStop, desc: desc,
 							plan: vfs.Plan{File: file, LimitBytes: -1, FailOp: op, FailErrno: unix.EIO}})
 					})
 				}
 				// (c) crash at every syscall boundary and after every k bytes of every write
-				ctx.Group(mode + "/crash")
+				ctx.Group(pfx + mode + "/crash")
 				for at := 0; at <= len(ops); at++ {
 					desc := fmt.Sprintf("%s/crash-before-call%d", base, at)
 					ctx.Case(desc, true, "", func() (string, string) {
-						return runCase(caseSpec{size: size, pos: pos, atStop: atStop, desc: desc,
+						return runCase(caseSpec{idKind: ck, size: size, pos: pos, atStop: atStop, desc: desc,
 							plan: vfs.Plan{File: file, LimitBytes: -1, Crash: true, CrashAt: at, CrashBytes: -1}})
 					})
 					if at < len(ops) && ops[at].Op == "write" {
 						for k := 0; k <= ops[at].N; k++ {
 							desc := fmt.Sprintf("%s/crash-in-call%d-after-%dbytes", base, at, k)
 							ctx.Case(desc, true, "", func() (string, string) {
-								return runCase(caseSpec{size: size, pos: pos, atStop: atStop, desc: desc,
+								return runCase(caseSpec{idKind: ck, size: size, pos: pos, atStop: atStop, desc: desc,
 									plan: vfs.Plan{File: file, LimitBytes: -1, Crash: true, CrashAt: at, CrashBytes: k}})
 							})
 						}
@@ -393,13 +471,13 @@ func enumerate(ctx *seq.Ctx) {
 		}
 	}
 	// (d) damaged or foreign files found at startup never block recovery of the others
-	ctx.Group("foreign-files")
+	ctx.Group(pfx + "foreign-files")
 	for _, kind := range []string{"zero", "badname", "subdir", "symlink-dangling"} {
 		for _, pos := range []string{"first", "middle", "last"} {
 			f := kind + "@" + pos
-			desc := "foreign/" + f
+			desc := pfx + "foreign/" + f
 			ctx.Case(desc, true, "", func() (string, string) {
-				return runCase(caseSpec{size: 3, pos: 1, foreign: f, desc: desc, plan: vfs.Plan{LimitBytes: -1}})
+				return runCase(caseSpec{idKind: ck, size: 3, pos: 1, foreign: f, desc: desc, plan: vfs.Plan{LimitBytes: -1}})
 			})
 		}
 	}
@@ -408,6 +486,7 @@ func enumerate(ctx *seq.Ctx) {
 func main() {
 	logger.SetLogLevel(logger.InfoLevel)
 	logger.SetOutput(logs)
+	initRealIDs()
 	seq.Main(&seq.Config{
 		Property: "C04",
 		Level:    "fault_enumeration",
